@@ -175,6 +175,41 @@ def float_roundtrip_sites(prog, fns):
     return out
 
 
+def check_mixed_orderings(ctx, prog, tag, rule="C08.N8.mixed-ordering-casts-the-float-only-below-saturation", floor_name="C08.N8"):
+    """the mixed float / integer orderings (functions taking a float and an integer and returning an Ordering) cast the
+    float to the integer type only on paths that excluded the saturating range"""
+    n8 = 0
+    for g in prog.fns.values():
+        if g.crate != "minijinja" or g.kind == "closure" or g.argc != 2:
+            continue
+        tys = [g.locals[1].get("s", ""), g.locals[2].get("s", "")]
+        if not ("f64" in tys and any(t in ("i128", "u128", "i64", "u64") for t in tys)):
+            continue
+        if not g.locals[0].get("s", "").endswith("cmp::Ordering"):
+            continue
+        casts = [(bb, s_["rv"]) for bb, i, s_ in g.all_stmts() if s_.get("rv", {}).get("k") == "cast" and s_["rv"].get("kind") == "FloatToInt"]
+        bounds = []
+        for sb in sorted(g.reachable):
+            if g.term(sb)["k"] != "switch":
+                continue
+            cd = flow.cond_of(g, sb)
+            if cd.kind == "bin" and cd.rv.get("ty") in ("f64", "f32") and cd.rv["op"] in ("Lt", "Le", "Gt", "Ge"):
+                for x in ("a", "b"):
+                    for o in flow.origins(g, cd.rv[x]):
+                        if o.kind == "const" and (str(o.const.get("named", "")).endswith("::MAX") or "e" in str(o.const.get("d", "")).lower()
+                                                  or len(str(o.const.get("d", "")).split(".")[0].lstrip("-")) >= 19):
+                            bounds.append(sb)
+        for bb, rv in casts:
+            n8 += 1
+            ok = any(cfg.dominates(g, b_, bb) for b_ in bounds)
+            ctx.ob(rule, "%s%s|as %s" % (tag, g.path.split("::")[-1], rv.get("to")), ok,
+                   "%s casts its float operand to %s without a dominating comparison against the type's maximum: the cast "
+                   "saturates, so a float at or beyond 2^N compares Equal to the largest integer" % (g.path.split("::")[-1], rv.get("to")),
+                   g.where(bb))
+    if any(k.endswith("value::cmp_f64_i128") for k in prog.fns):
+        ctx.floor(floor_name + " float casts in mixed orderings" + tag, n8, 2)
+
+
 def run(ctx):
     ctx.explain("C08: frozen operator table checked against the MIR of value/ops.rs (integer arm -> i128::checked_* "
                 "with None -> Err; float arms of // and % both euclidean), a lossy-cast lint with the round-trip "
@@ -292,39 +327,7 @@ def run(ctx):
                    "`x as T as f64 == x` is not dominated by `x < T::MAX as f64`: 2^63 (or 2^N for the type) passes the test "
                    "through the saturating cast and is converted to T::MAX, a different integer", g.where(rb))
         ctx.floor("C08.N7 float->int->float exactness tests" + tag, len(rt), 6)
-        # N8: the mixed float / integer orderings (functions taking a float and an integer and returning an Ordering)
-        # cast the float to the integer type only on paths that excluded the saturating range: `(left as i128).cmp(
-        # &right)` alone makes 2^127 compare Equal to i128::MAX.
-        n8 = 0
-        for g in prog.fns.values():
-            if g.crate != "minijinja" or g.kind == "closure" or g.argc != 2:
-                continue
-            tys = [g.locals[1].get("s", ""), g.locals[2].get("s", "")]
-            if not ("f64" in tys and any(t in ("i128", "u128", "i64", "u64") for t in tys)):
-                continue
-            if not g.locals[0].get("s", "").endswith("cmp::Ordering"):
-                continue
-            casts = [(bb, s_["rv"]) for bb, i, s_ in g.all_stmts() if s_.get("rv", {}).get("k") == "cast" and s_["rv"].get("kind") == "FloatToInt"]
-            bounds = []
-            for sb in sorted(g.reachable):
-                if g.term(sb)["k"] != "switch":
-                    continue
-                cd = flow.cond_of(g, sb)
-                if cd.kind == "bin" and cd.rv.get("ty") in ("f64", "f32") and cd.rv["op"] in ("Lt", "Le", "Gt", "Ge"):
-                    for x in ("a", "b"):
-                        for o in flow.origins(g, cd.rv[x]):
-                            if o.kind == "const" and (str(o.const.get("named", "")).endswith("::MAX") or "e" in str(o.const.get("d", "")).lower()
-                                                      or len(str(o.const.get("d", "")).split(".")[0].lstrip("-")) >= 19):
-                                bounds.append(sb)
-            for bb, rv in casts:
-                n8 += 1
-                ok = any(cfg.dominates(g, b_, bb) for b_ in bounds)
-                ctx.ob("C08.N8.mixed-ordering-casts-the-float-only-below-saturation", "%s%s|as %s" % (tag, g.path.split("::")[-1], rv.get("to")), ok,
-                       "%s casts its float operand to %s without a dominating comparison against the type's maximum: the cast "
-                       "saturates, so a float at or beyond 2^N compares Equal to the largest integer" % (g.path.split("::")[-1], rv.get("to")),
-                       g.where(bb))
-        if any(k.endswith("value::cmp_f64_i128") for k in prog.fns):
-            ctx.floor("C08.N8 float casts in mixed orderings" + tag, n8, 2)
+        check_mixed_orderings(ctx, prog, tag)
         # ---- N6
         check_narrow(ctx, prog, [(op, prog.fn(OPS + op)) for op in list(INT_TABLE) + ["neg", "div"] if prog.has_fn(OPS + op)], tag)
         # int_div: explicit zero check before checked_div_euclid is fine either way (checked returns None on 0)
